@@ -31,7 +31,7 @@ CLAIMS = {
  "C17": dict(text="Full: registers = per-register max rank over the set of added hashes, proved for every b in 4..18 and every hash list (induction over the list); perm/dup invariance, rank characterisation, reconstruction round trip. count() is tied by correspondence (model of count over regenerated tables).", design="7/C17", technique=T),
  "C18": dict(text="Full for the model: for every k>=1, every n and every lawful RNG (any gap function): add is total, size = min(n,k), items are distinct stream positions, prefix while n<=k, i()=n, is_empty iff n=0; arbitrary item lists by relabelling.", design="7/C18", technique=T),
  "C19": dict(text="Full in the model: for each of the nine models clear(s) equals the constructor's state for s's configuration (state equality, up to the RNG position for cuckoo/reservoir), including TDigest's sample counter. clone independence is trivial on immutable model states; Rust-side aliasing (Rc, RefCell) is covered by the correspondence: clone, divergent mutation, observation.", design="7/C19", technique="Lean 4 state-equality theorems per structure + differential correspondence with cleared-vs-fresh and clone/mutate histories"),
- "C20": dict(text="Full in the model: deserialize(serialize s) = s for every valid sketch, every successful deserialisation satisfies the constructor invariants, duplicates/omissions/unknown fields/non-byte registers are errors. serde_json's parsing of text into typed fields is trusted; documents with b and registers length varied independently are run through the real deserialiser.", design="7/C20", technique="Lean 4 theorems over a document-level model of visit_map + differential correspondence on generated (mal)formed documents"),
+ "C20": dict(text="Full in the model: deserialize(serialize s) = s for every valid sketch, every successful deserialisation satisfies the constructor invariants, duplicates/omissions/unknown fields/non-byte registers are errors. serde_json's parsing of text into typed fields is trusted; documents with b and registers length varied independently are run through the real deserialiser.", design="7/C20", technique="Lean 4 theorems over a document-level model of visit_map + tie theorem for the translated constructor guards (with_registers_and_hash) + differential correspondence on generated (mal)formed documents"),
 }
 ENABLED = ["C03", "C07", "C08", "C13", "C01", "C02", "C06", "C04", "C15", "C16", "C11", "C05", "C09", "C10", "C12", "C14", "C17", "C18", "C19", "C20"]
 NOT_YET = "not yet built in this round (planned: Lean model + theorems + correspondence, see DESIGN.md section 7)"
